@@ -40,6 +40,9 @@ fn gen(seed: u64, idx: u64, _tier: Tier) -> Plan {
         let mixed: String = s.seed_hex.chars().map(|c| if rng.chance(1, 2) { c.to_ascii_uppercase() } else { c }).collect();
         s.seed_written = Some(if rng.chance(1, 2) { s.seed_hex.to_uppercase() } else { mixed });
     }
+    if mode == Mode::F && s.source == ConfigSource::File && rng.chance(1, 3) {
+        plan.params.insert("leftover_env".into(), 1);
+    }
     world_knobs(&mut rng, &mut plan, false);
     if rng.chance(1, 2) {
         // error paths log too: socket, TCP and file errors while traffic flows
